@@ -11,6 +11,9 @@ go build -o bin/probegen ./cmd/probegen || exit 1
 bin/probegen scenarios/probe/probe.idl scenarios/probe || exit 1
 go build ./cmd/... ./rt/... ./internal/report/... ./internal/explore/... || exit 1
 go build ./... 2>/dev/null || true
+# C07's race side-pass rebuilds its driver with the race detector on every run: compile the
+# instrumented packages once so that the check only has to re-link (the check never uses this binary)
+go build -race -o .work/c07-race-warm ./checks/c07 && rm -f .work/c07-race-warm || exit 1
 # engine self-tests (interleaving counts, channel/mutex semantics, deadlock and crash detection)
 go test ./internal/explore/ || exit 1
 echo setup done
